@@ -380,6 +380,18 @@ ReplaceAllUsesSeq(s, vs, ws, flag) ==
                          Ok(s), [k \in 1..Len(vs) |-> k])
        IN IF r.out = "ok" THEN r ELSE Rej(s, r.out)
 
+\* convenience.replace_nodes_and_values(g, ip, olds, news, [v], [w]): a composite edit - the new value takes the
+\* old one's name (when it has one; otherwise its own name is assigned again), the uses and graph-output slots of v
+\* go to w, the new nodes are linked after ip, the old nodes are removed safely.  ONE public call: when any of
+\* its steps is rejected the whole call is (C06: nothing has changed then).
+ReplaceNodes(s, g, ip, olds, news, v, w) ==
+  LET nm == IF s.vName[v] \notin {NoName, ""} THEN s.vName[v] ELSE s.vName[w]
+      r1 == SetName(s, w, nm)
+      r2 == IF r1.out # "ok" THEN r1 ELSE ReplaceAllUsesSeq(r1.s, <<v>>, <<w>>, TRUE)
+      r3 == IF r2.out # "ok" THEN r2 ELSE GInsert(r2.s, g, ip, news, FALSE)
+      r4 == IF r3.out # "ok" THEN r3 ELSE GRemove(r3.s, g, olds, TRUE)
+  IN IF r4.out = "ok" THEN r4 ELSE Rej(s, r4.out)
+
 \* =======================================================================================
 \* Calls: one uniform record shape so that a call is JSON on both sides of the binding
 \* =======================================================================================
@@ -425,6 +437,7 @@ Apply(s, c) ==
     [] c.op = "ReplaceAllUses" -> ReplaceAllUses(s, c.v, c.w, c.flag)
     [] c.op = "ReplaceAllUsesSeq" -> ReplaceAllUsesSeq(s, c.vs, c.ws, c.flag)
     [] c.op = "InitUpdateKeys" -> InitUpdateKeys(s, c.g, c.name, c.v, c.k, c.w)
+    [] c.op = "ReplaceNodes" -> ReplaceNodes(s, c.g, c.n, c.vs, c.ws, c.v, c.w)
 
 ApplyAll(s, cs) == FoldLeft(LAMBDA acc, c : Apply(acc, c).s, s, cs)
 Outcomes(s, cs) ==   \* the sequence of [c, out] records of running cs from s
